@@ -41,6 +41,7 @@ SPECS = {
     "psi2s_ggjpsi_hel": (("psi(2S)", [-1, 1]), ["gamma", "gamma", "J/psi(1S)"], ["chi(c1)(1P)"], ["EM"], "helicity"),
     "jpsi_kstkst_hel": (("J/psi(1S)", [-1, 0, 1]), ["K+", "pi-", "K-", "pi+"], ["K*(892)0", "K*(892)~0"], ["strong"], "helicity"),
     "chic0_kstkst_hel": ("chi(c0)(1P)", ["K+", "pi-", "K-", "pi+"], ["K*(892)0", "K*(892)~0"], ["strong"], "helicity"),
+    "chic0_omegaomega_hel": ("chi(c0)(1P)", ["pi0", "gamma", "pi0", "gamma"], ["omega(782)"], ["EM", "strong"], "helicity"),
     "jpsi_gkk_hel": (("J/psi(1S)", [-1, 1]), ["gamma", "K+", "K-"], ["f(2)(1270)", "f(0)(1500)"], ["strong", "EM"], "helicity"),
 }
 
